@@ -120,6 +120,8 @@ enum SourceKind {
     Range,
     /// a call to an eager accessor (returns a Vec by value)
     Eager,
+    /// R9: `X.cart_prod()` of the external crate `permutator` (assumed contract, see enc_exp)
+    CartProd,
 }
 
 #[derive(Clone)]
@@ -254,7 +256,12 @@ impl<'a> R<'a> {
             }]),
             Expr::MethodCall(mc) => {
                 let name = mc.method.to_string();
-                if name == "iter" && mc.args.is_empty() {
+                if name == "cart_prod" && mc.args.is_empty() {
+                    Some(vec![Source {
+                        kind: SourceKind::CartProd,
+                        expr: (*mc.receiver).clone(),
+                    }])
+                } else if name == "iter" && mc.args.is_empty() {
                     Some(vec![Source {
                         kind: SourceKind::SliceIter,
                         expr: (*mc.receiver).clone(),
@@ -329,6 +336,12 @@ impl<'a> R<'a> {
                 SourceKind::Eager => {
                     let sv = format!("__s{}", k);
                     out.push_str(&format!("let {} = {};\n", sv, src_text));
+                    sv
+                }
+                SourceKind::CartProd => {
+                    self.rule("R9:cart_prod->eager(assumed)");
+                    let sv = format!("__s{}", k);
+                    out.push_str(&format!("let {} = cart_prod__eager(&({}));\n", sv, src_text));
                     sv
                 }
             };
@@ -846,6 +859,19 @@ impl<'r, 'a, 'ast> Visit<'ast> for V<'r, 'a> {
         self.block_stmts(b);
     }
 
+    fn visit_local(&mut self, l: &'ast Local) {
+        // hook for a woven type annotation on an un-annotated `let x = ..` (semantics-preserving: rustc checks it)
+        if let Pat::Ident(pi) = &l.pat {
+            let (_, e) = rng(pi.span());
+            self.edits.push(Edit {
+                start: e,
+                end: e,
+                text: format!(" /*@TY:{}@*/", pi.ident),
+            });
+        }
+        visit::visit_local(self, l);
+    }
+
     fn visit_expr(&mut self, e: &'ast Expr) {
         match e {
             Expr::MethodCall(mc) => {
@@ -864,9 +890,16 @@ impl<'r, 'a, 'ast> Visit<'ast> for V<'r, 'a> {
                 let k = self.r.fresh();
                 let pat = self.r.render_pat(&fl.pat);
                 let ex = self.r.render_expr(&fl.expr);
-                let head = format!("for {} in __it{}: {}", pat, k, ex);
-                let t = self.r.loop_wrap(k, head, &fl.body);
-                self.replace(e.span(), t);
+                if self.r.is_eager_call(strip_paren(&fl.expr)) {
+                    // bind the eagerly computed sequence so that invariants can name it
+                    let head = format!("for {} in __it{}: __s{}", pat, k, k);
+                    let t = self.r.loop_wrap(k, head, &fl.body);
+                    self.replace(e.span(), format!("{{ let __s{} = {};\n{} }}", k, ex, t));
+                } else {
+                    let head = format!("for {} in __it{}: {}", pat, k, ex);
+                    let t = self.r.loop_wrap(k, head, &fl.body);
+                    self.replace(e.span(), t);
+                }
             }
             Expr::While(w) => {
                 let c = self.r.render_expr(&w.cond);
